@@ -49,6 +49,7 @@ fn main() -> ExitCode {
                 profile: opt("--profile").unwrap_or_else(|| "checked".into()),
                 hang_file: opt("--hang-file"),
                 only_stage: opt("--only-stage").and_then(|s| s.parse().ok()),
+                build_label: opt("--build-label").unwrap_or_default(),
                 stop: match (opt("--stop-stage").and_then(|s| s.parse().ok()), opt("--stop-index").and_then(|s| s.parse().ok())) {
                     (Some(a), Some(i)) => Some((a, i)),
                     _ => None,
